@@ -1604,3 +1604,295 @@ Proof.
   - intros T. reflexivity.
   - intros p [<-|[]]. reflexivity.
 Qed.
+
+(* ====================================================================== *)
+(* H. the main theorems                                                      *)
+(* ====================================================================== *)
+
+(* the BFS output before sorting and the dominance pass; all candidates of the unfolding *)
+Definition raw (SE : senv) (id : Z) : list cand := bfs (S (S (length SE))) SE [([], id)] [] [] [].
+Definition all_cands (SE : senv) (id : Z) : list cand := unfold (S (length SE)) SE id [].
+
+Lemma sel_transfer A Rw :
+  incl Rw A ->
+  (forall x, In x A -> exists y, In y Rw /\ c_name y = c_name x /\ (depth_of y <= depth_of x)%nat) ->
+  (forall n d tg, (forall y, In y A -> c_name y = n -> (d <= depth_of y)%nat) ->
+                  cap2 (cnt (pq n d tg) A) = cap2 (cnt (pq n d tg) Rw)) ->
+  forall c, sel A c <-> sel Rw c.
+Proof.
+  intros Hincl Hdom Hcap c. split.
+  - intros (Hin & Hmin & Hc).
+    assert (Hcap' := fun tg => Hcap (c_name c) (depth_of c) tg Hmin).
+    assert (Hone : forall tg, (tg = true -> c_tagged c = true) ->
+                              cnt (pq (c_name c) (depth_of c) tg) A = 1%nat ->
+                              In c Rw /\ cnt (pq (c_name c) (depth_of c) tg) Rw = 1%nat).
+    { intros tg Htg H1. specialize (Hcap' tg). rewrite H1 in Hcap'.
+      assert (H1' : cnt (pq (c_name c) (depth_of c) tg) Rw = 1%nat) by (unfold cap2 in Hcap'; lia).
+      split; [|exact H1'].
+      destruct (cnt_pos_in (pq (c_name c) (depth_of c) tg) Rw) as (y & Hy & Py); [lia|].
+      assert (y = c); [|subst; exact Hy].
+      apply (cnt_one_unique _ _ y c H1); auto. apply pq_true. auto. }
+    assert (HinR : In c Rw).
+    { destruct Hc as [Hc|[Ht Hc]]; [apply (Hone false); auto; discriminate|apply (Hone true); auto]. }
+    split; [exact HinR|]. split; [intros y Hy; apply Hmin; apply Hincl; exact Hy|].
+    destruct Hc as [Hc|[Ht Hc]]; [left; apply (Hone false); auto; discriminate|right; split; [exact Ht|apply (Hone true); auto]].
+  - intros (Hin & Hmin & Hc).
+    assert (HminA : forall y, In y A -> c_name y = c_name c -> (depth_of c <= depth_of y)%nat).
+    { intros y Hy Hn. destruct (Hdom y Hy) as (z & Hz & Hnz & Hdz).
+      specialize (Hmin z Hz (eq_trans Hnz Hn)). lia. }
+    assert (Hcap' := fun tg => Hcap (c_name c) (depth_of c) tg HminA).
+    split; [apply Hincl; exact Hin|]. split; [exact HminA|].
+    destruct Hc as [Hc|[Ht Hc]]; [left|right; split; [exact Ht|]].
+    + specialize (Hcap' false). rewrite Hc in Hcap'. unfold cap2 in Hcap'. lia.
+    + specialize (Hcap' true). rewrite Hc in Hcap'. unfold cap2 in Hcap'. lia.
+Qed.
+
+Theorem raw_vs_all SE id :
+  incl (raw SE id) (all_cands SE id) /\
+  (forall x, In x (all_cands SE id) ->
+             exists y, In y (raw SE id) /\ c_name y = c_name x /\ (depth_of y <= depth_of x)%nat) /\
+  (forall n d tg, (forall y, In y (all_cands SE id) -> c_name y = n -> (d <= depth_of y)%nat) ->
+                  cap2 (cnt (pq n d tg) (all_cands SE id)) = cap2 (cnt (pq n d tg) (raw SE id))).
+Proof.
+  set (K := length SE). set (Q0 := [(@nil nat, id)]).
+  destruct (bfs_vs_pruned SE (S (S K)) 0 Q0 [] [] [] Q0 [] (Inv_root SE id)) as (R & HR & HRincl & HRcap).
+  cbn [app] in HR. change (raw SE id = R) in HR.
+  rewrite (pruned_stable SE (S (S K)) (S K) 0 Q0 [] (witness_root SE id)) in HRincl, HRcap by (unfold K; lia).
+  assert (HP0 : Permutation Q0 (Q0 ++ [])) by (rewrite app_nil_r; apply Permutation_refl).
+  destruct (full_vs_pruned SE (S K) 0 Q0 Q0 [] [] [] HP0) as (I1 & I2 & I3).
+  { intros p [<-|[]]. reflexivity. }
+  { intros p []. }
+  { intros T r p' []. }
+  { intros T r c []. }
+  cbn [app] in I2, I3.
+  pose proof (unfold_full SE (S K) id []) as HU. fold Q0 in HU. change (unfold (S K) SE id []) with (all_cands SE id) in HU.
+  rewrite HR. split; [|split].
+  - intros c Hc. eapply Permutation_in; [apply Permutation_sym; exact HU|]. apply I1. apply HRincl. exact Hc.
+  - intros x Hx. apply (Permutation_in _ HU) in Hx. destruct (I2 x Hx) as (y & Hy & Hn & Hd).
+    assert (Hpos : (0 < cnt (pq (c_name y) (depth_of y) false) R)%nat).
+    { pose proof (HRcap (c_name y) (depth_of y) false) as E.
+      assert (0 < cnt (pq (c_name y) (depth_of y) false) (pruned (S K) SE Q0 []))%nat.
+      { apply (cnt_in_pos _ _ y Hy). apply pq_true. repeat split; auto. discriminate. }
+      unfold cap2 in E. lia. }
+    apply cnt_pos_in in Hpos. destruct Hpos as (z & Hz & Pz). apply pq_true in Pz. destruct Pz as (Hnz & Hdz & _).
+    exists z. split; [exact Hz|]. split; [congruence|lia].
+  - intros n d tg Hmin. rewrite (cnt_perm _ _ _ HU), I3, HRcap; [reflexivity|].
+    intros y Hy. apply Hmin. eapply Permutation_in; [apply Permutation_sym; exact HU|exact Hy].
+Qed.
+
+Theorem sel_raw_all SE id c : sel (all_cands SE id) c <-> sel (raw SE id) c.
+Proof. destruct (raw_vs_all SE id) as (H1 & H2 & H3). apply sel_transfer; assumption. Qed.
+
+(* --- explore in terms of [sel] --- *)
+Lemma sort_by_ext {X} (f g : X -> X -> bool) l : (forall x y, f x y = g x y) -> sort_by f l = sort_by g l.
+Proof.
+  intros H. induction l as [|x l IH]; [reflexivity|]. unfold sort_by in *. cbn [fold_right]. rewrite IH.
+  generalize (fold_right (insert_by g) [] l). intros m. induction m as [|y m IHm]; [reflexivity|].
+  cbn [insert_by]. rewrite H, IHm. reflexivity.
+Qed.
+
+Lemma StronglySorted_impl {X} (R R' : X -> X -> Prop) l :
+  (forall x y, R x y -> R' x y) -> StronglySorted R l -> StronglySorted R' l.
+Proof.
+  intros H. induction 1 as [|x l Hs IH Hall]; constructor; [exact IH|].
+  rewrite Forall_forall in *. auto.
+Qed.
+
+Lemma sort_by_name_sorted l : StronglySorted le_bn (sort_by by_name_ltb l).
+Proof.
+  rewrite (sort_by_ext _ (fun x y => bn_klt (bn_key x) (bn_key y))) by apply by_name_ltb_key.
+  eapply StronglySorted_impl; [|apply (sort_by_sorted bn_key bn_keq bn_klt sto_bn)].
+  intros x y H. unfold le_bn. rewrite by_name_ltb_key. exact H.
+Qed.
+
+Lemma final_sort_perm mode l : Permutation (final_sort mode l) l.
+Proof. unfold final_sort. destruct (mode =? 0); [apply sort_by_perm|]. destruct (mode =? 2); [apply sort_by_perm|apply Permutation_refl]. Qed.
+
+Definition dominated (SE : senv) (id : Z) : list cand :=
+  let sorted := sort_by by_name_ltb (raw SE id) in dominate (S (length sorted)) sorted.
+
+Lemma explore_eq SE id mode : explore SE id mode = final_sort mode (dominated SE id).
+Proof. reflexivity. Qed.
+
+Lemma dominated_spec SE id :
+  (forall c, In c (dominated SE id) <-> sel (raw SE id) c) /\ StronglySorted name_lt (dominated SE id).
+Proof.
+  unfold dominated. cbv zeta.
+  destruct (dominate_spec (S (length (sort_by by_name_ltb (raw SE id)))) (sort_by by_name_ltb (raw SE id)))
+    as [H1 H2]; [lia|apply sort_by_name_sorted|].
+  split; [|exact H2]. intros c. rewrite H1. split; apply sel_perm; [|apply Permutation_sym]; apply sort_by_perm.
+Qed.
+
+Theorem explore_In SE id mode c : In c (explore SE id mode) <-> sel (all_cands SE id) c.
+Proof.
+  rewrite explore_eq, sel_raw_all, <- (proj1 (dominated_spec SE id)).
+  split; apply Permutation_in; [|apply Permutation_sym]; apply final_sort_perm.
+Qed.
+
+Theorem explore_iff_selected SE id mode c : In c (explore SE id mode) <-> In c (selected SE id).
+Proof. rewrite explore_In, selected_eq, select_all_spec. reflexivity. Qed.
+Print Assumptions explore_iff_selected.
+
+(* 2. distinct names *)
+Lemma name_lt_NoDup l : StronglySorted name_lt l -> NoDup (map c_name l).
+Proof.
+  induction 1 as [|x l Hs IH Hall]; cbn [map]; constructor; [|exact IH].
+  intros Hi. apply in_map_iff in Hi. destruct Hi as (y & E & Hy). rewrite Forall_forall in Hall.
+  specialize (Hall y Hy). unfold name_lt in Hall. rewrite E, ag_bytes_ltb_irrefl in Hall. discriminate.
+Qed.
+
+Theorem explore_names_distinct SE id mode : NoDup (map c_name (explore SE id mode)).
+Proof.
+  rewrite explore_eq. eapply Permutation_NoDup.
+  - apply Permutation_map. apply Permutation_sym. apply final_sort_perm.
+  - apply name_lt_NoDup. apply dominated_spec.
+Qed.
+Print Assumptions explore_names_distinct.
+
+(* 3. soundness *)
+Theorem explore_sound SE id mode c : In c (explore SE id mode) -> In c (unfold (S (length SE)) SE id []).
+Proof. intros H. apply explore_In in H. apply H. Qed.
+Print Assumptions explore_sound.
+
+Theorem explore_addresses SE id mode c : In c (explore SE id mode) ->
+  exists pre i sf, field_at SE id [] (c_route c) = Some (pre, i, sf) /\ classify pre i sf = FCand c
+                   /\ c_route c = pre ++ [i].
+Proof. intros H. apply explore_sound in H. apply unfold_addresses in H. exact H. Qed.
+Print Assumptions explore_addresses.
+
+(* 4. the main theorem, in the boolean form of Autogen.v *)
+Lemma ag_gtype_eqb_refl a : gtype_eqb a a = true.
+Proof.
+  induction a; cbn; try reflexivity; rewrite ?Nat.eqb_refl, ?Z.eqb_refl, ?IHa, ?IHa1, ?IHa2; try reflexivity.
+  destruct k; reflexivity.
+Qed.
+
+Lemma cand_eqb_refl c : cand_eqb c c = true.
+Proof.
+  unfold cand_eqb. rewrite ag_bytes_eqb_refl, ag_gtype_eqb_refl, eqb_reflx.
+  destruct (list_eq_dec Nat.eq_dec (c_route c) (c_route c)); [reflexivity|congruence].
+Qed.
+
+Lemma same_set_of_iff a b : NoDup a -> NoDup b -> (forall c, In c a <-> In c b) -> same_set a b = true.
+Proof.
+  intros Ha Hb H. unfold same_set. rewrite !andb_true_iff. split; [split|].
+  - apply Nat.eqb_eq. apply Nat.le_antisymm; apply NoDup_incl_length; auto; intros c Hc; apply H; exact Hc.
+  - apply forallb_forall. intros x Hx. apply existsb_exists. exists x. split; [apply H; exact Hx|apply cand_eqb_refl].
+  - apply forallb_forall. intros x Hx. apply existsb_exists. exists x. split; [apply H; exact Hx|apply cand_eqb_refl].
+Qed.
+
+Lemma NoDup_of_map {X Y} (f : X -> Y) l : NoDup (map f l) -> NoDup l.
+Proof.
+  induction l as [|x l IH]; intros H; [constructor|]. cbn [map] in H. inversion H as [|? ? Hn Hnd]; subst.
+  constructor; [|auto]. intros Hi. apply Hn. apply in_map. exact Hi.
+Qed.
+
+Theorem explore_matches_selected SE id mode : explore_matches_spec SE id mode = true.
+Proof.
+  unfold explore_matches_spec. apply same_set_of_iff.
+  - apply (NoDup_of_map c_name). apply explore_names_distinct.
+  - apply (NoDup_of_map c_name). rewrite selected_eq. apply select_all_names_NoDup.
+  - intros c. apply explore_iff_selected.
+Qed.
+Print Assumptions explore_matches_selected.
+
+(* the specification, spelled out: a candidate of the unfolding survives iff, among all the candidates of the
+   same name, it is at the minimal depth and is the only one there or the only tagged one there *)
+Theorem explore_characterised SE id mode c :
+  In c (explore SE id mode) <->
+  let all := unfold (S (length SE)) SE id [] in
+  In c all /\
+  (forall y, In y all -> c_name y = c_name c -> (length (c_route c) <= length (c_route y))%nat) /\
+  (length (filter (fun y => bytes_eqb (c_name y) (c_name c) && Nat.eqb (length (c_route y)) (length (c_route c))) all) = 1%nat \/
+   (c_tagged c = true /\
+    length (filter (fun y => bytes_eqb (c_name y) (c_name c) && Nat.eqb (length (c_route y)) (length (c_route c))
+                             && c_tagged y) all) = 1%nat)).
+Proof.
+  rewrite explore_In. unfold sel, all_cands, cnt. cbv zeta.
+  assert (E1 : forall l, filter (pq (c_name c) (depth_of c) false) l =
+    filter (fun y => bytes_eqb (c_name y) (c_name c) && Nat.eqb (length (c_route y)) (length (c_route c))) l).
+  { intros l. apply filter_ext. intros y. unfold pq, depth_of. cbn [implb]. apply andb_true_r. }
+  assert (E2 : forall l, filter (pq (c_name c) (depth_of c) true) l =
+    filter (fun y => bytes_eqb (c_name y) (c_name c) && Nat.eqb (length (c_route y)) (length (c_route c)) && c_tagged y) l).
+  { intros l. apply filter_ext. intros y. unfold pq, depth_of. cbn [implb]. reflexivity. }
+  rewrite E1, E2. reflexivity.
+Qed.
+Print Assumptions explore_characterised.
+
+(* 1. sortedness *)
+Lemma routes_NoDup SE id l : incl l (all_cands SE id) -> NoDup l -> NoDup (map c_route l).
+Proof.
+  intros Hincl. induction 1 as [|x l Hn Hnd IH]; cbn [map]; constructor.
+  - intros Hi. apply in_map_iff in Hi. destruct Hi as (y & E & Hy). apply Hn.
+    assert (y = x); [|subst; exact Hy].
+    apply (unfold_route_inj SE (S (length SE)) id); auto; apply Hincl; [right; exact Hy|left; reflexivity].
+  - apply IH. intros y Hy. apply Hincl. right. exact Hy.
+Qed.
+
+Lemma dominated_incl SE id : incl (dominated SE id) (all_cands SE id).
+Proof.
+  intros c Hc. apply (proj1 (dominated_spec SE id)) in Hc. apply sel_raw_all in Hc. apply Hc.
+Qed.
+
+Theorem explore_sorted_mode0 SE id :
+  StronglySorted (fun x y => route_ltb (c_route x) (c_route y) = true) (explore SE id 0).
+Proof.
+  rewrite explore_eq. unfold final_sort. cbn [Z.eqb].
+  apply (sort_by_strict c_route route_eqb route_ltb sto_route).
+  apply (routes_NoDup SE id); [apply dominated_incl|].
+  apply (NoDup_of_map c_name). apply name_lt_NoDup. apply dominated_spec.
+Qed.
+Print Assumptions explore_sorted_mode0.
+
+Theorem explore_sorted_mode2 SE id :
+  StronglySorted (fun x y => rfc7049_ltb (c_name x) (c_name y) = true) (explore SE id 2).
+Proof.
+  rewrite explore_eq. unfold final_sort. cbn [Z.eqb].
+  apply (sort_by_strict c_name bytes_eqb rfc7049_ltb sto_rfc7049).
+  apply name_lt_NoDup. apply dominated_spec.
+Qed.
+Print Assumptions explore_sorted_mode2.
+
+Theorem explore_sorted_mode1 SE id mode : mode <> 0 -> mode <> 2 ->
+  StronglySorted (fun x y => bytes_ltb (c_name x) (c_name y) = true) (explore SE id mode).
+Proof.
+  intros H0 H2. rewrite explore_eq. unfold final_sort.
+  destruct (Z.eqb_spec mode 0); [contradiction|]. destruct (Z.eqb_spec mode 2); [contradiction|].
+  apply dominated_spec.
+Qed.
+Print Assumptions explore_sorted_mode1.
+
+Definition mode_lt (mode : Z) (x y : cand) : bool :=
+  if mode =? 0 then route_ltb (c_route x) (c_route y)
+  else if mode =? 2 then rfc7049_ltb (c_name x) (c_name y)
+  else bytes_ltb (c_name x) (c_name y).
+
+Theorem explore_sorted SE id mode : StronglySorted (fun x y => mode_lt mode x y = true) (explore SE id mode).
+Proof.
+  unfold mode_lt. destruct (Z.eqb_spec mode 0) as [->|H0]; [apply explore_sorted_mode0|].
+  destruct (Z.eqb_spec mode 2) as [->|H2]; [apply explore_sorted_mode2|apply explore_sorted_mode1; assumption].
+Qed.
+Print Assumptions explore_sorted.
+
+(* 5. the routes of an autogenerated entry are non-empty and pairwise unrelated *)
+Theorem autogen_entry_routes_ok SE id mode : entry_routes_ok (autogen_entry SE id mode) = true.
+Proof.
+  unfold entry_routes_ok, autogen_entry. cbn [ae_kind]. unfold routes_ok. cbv zeta.
+  assert (Ef : filter active (map cand_entry (explore SE id mode)) = map cand_entry (explore SE id mode)).
+  { induction (explore SE id mode) as [|c l IH]; [reflexivity|]. cbn [map filter]. unfold active at 1.
+    cbn [cand_entry fe_ignore negb]. rewrite IH. reflexivity. }
+  rewrite Ef, map_map. cbn [cand_entry fe_route].
+  assert (Hincl : incl (explore SE id mode) (all_cands SE id)) by (intros c Hc; apply (explore_sound _ _ _ _ Hc)).
+  assert (Hnd : NoDup (explore SE id mode)) by (apply (NoDup_of_map c_name); apply explore_names_distinct).
+  apply andb_true_iff. split.
+  - apply forallb_forall. intros r Hr. apply in_map_iff in Hr. destruct Hr as (c & <- & Hc).
+    destruct (explore_addresses _ _ _ _ Hc) as (pre & i & sf & _ & _ & ->). destruct pre; reflexivity.
+  - apply prefix_free_pairwise; [apply (routes_NoDup SE id); assumption|].
+    intros a b Ha Hb Hne. apply in_map_iff in Ha, Hb. destruct Ha as (ca & <- & Hca). destruct Hb as (cb & <- & Hcb).
+    unfold unrelated. apply andb_true_iff. split; apply negb_true_iff.
+    + destruct (is_prefix (c_route ca) (c_route cb)) eqn:E; [|reflexivity]. exfalso. apply Hne.
+      rewrite (unfold_prefix_eq SE (S (length SE)) id ca cb); auto.
+    + destruct (is_prefix (c_route cb) (c_route ca)) eqn:E; [|reflexivity]. exfalso. apply Hne.
+      rewrite (unfold_prefix_eq SE (S (length SE)) id cb ca); auto.
+Qed.
+Print Assumptions autogen_entry_routes_ok.
